@@ -17,9 +17,9 @@ LEAN_MODULES = ["Mouette.Props.C08"]
 REQUIRED_THEOREMS = [
     "toFun_append", "edgeBlock_eq_stiffEntry", "lap_eq_stiffness", "lap_symmetric", "lap_row_sums_zero", "lap_quad",
     "blocks_symmetric", "blocks_row_sums_zero", "gramRow_nabla_eq_edgeBlock", "dualLap_symmetric", "dualLap_row_sums_zero",
-    "lapEdges_block", "lapEdges_symmetric", "lapEdges_row_sums_zero", "lapTet_row_sums_zero", "graphLap_eq_D_sub_A", "graphLap_symmetric", "graphLap_row_sums_zero", "adjacency_symmetric",
+    "volLap_symmetric", "volLap_row_sums_zero", "blocks_quad_nonneg", "lapEdges_block", "lapEdges_symmetric", "lapEdges_row_sums_zero", "lapTet_row_sums_zero", "graphLap_eq_D_sub_A", "graphLap_symmetric", "graphLap_row_sums_zero", "adjacency_symmetric",
     "adjacency_entries", "vertexToEdge_column", "vertexToFace_entries", "mass_diagonal", "mass_nonneg", "mass_total",
-    "mass_pos", "mass_total_triangles", "mass_total_tets", "diagMass_total", "massEdges_total_le_partial", "massEdges_diagonal", "rowSum_eq_sum_toFun",
+    "mass_pos", "mass_total_triangles", "mass_total_tets", "diagMass_total", "massEdges_total", "edgeFaceIncidence_of_manifold", "massEdges_total_of_manifold", "directFace_eq_iff", "edgeFaceList_in_range", "massEdges_total_le_partial", "massEdges_diagonal", "rowSum_eq_sum_toFun",
     "hatGrad_partition", "grad_affine", "grad_dot_eq_cot", "grad_coords", "oppLocal_is_corner", "oppLocal_bridge", "lapLoop_bridge",
 ]
 TRUSTED = [
@@ -350,6 +350,22 @@ def oracle(case):
     for e, (a, b) in enumerate(E):
         for t, f in enumerate(Fs):
             if a in f and b in f: ebase[e] += areas[t] / 3
+    # premise of the Lean theorem massEdges_total (EdgeFaceIncidence): walking over both sides of every edge meets every face 3 times
+    dside = {}
+    for t, f in enumerate(Fs):
+        for k in range(3): dside.setdefault((f[k], f[(k + 1) % 3]), t)      # direct_face: first face holding the directed side
+    met = [0] * nF
+    for (a, b) in E:
+        for key in ((a, b), (b, a)):
+            if key in dside: met[dside[key]] += 1
+    if any(m != 3 for m in met):
+        raise RuntimeError(f"EdgeFaceIncidence fails on a generated manifold mesh: {met} tag={case.get('tag')}")
+    # ... and the natural hypotheses it is derived from (OrientedTriangulation, EdgesAreSides)
+    alls = [(f[k], f[(k + 1) % 3]) for f in Fs for k in range(3)]
+    ok_tri = all(len(set(f)) == 3 for f in Fs) and len(set(alls)) == len(alls)
+    ok_edges = all(E.count(sd) + E.count((sd[1], sd[0])) == 1 for sd in alls)
+    if not (ok_tri and ok_edges):
+        raise RuntimeError(f"OrientedTriangulation/EdgesAreSides fail on a generated manifold mesh: {ok_tri} {ok_edges} tag={case.get('tag')}")
     for inv in (0, 1):
         g = (lambda x: x) if not inv else (lambda x: 1 / x)
         for sq in (0, 1):
